@@ -231,7 +231,7 @@ Section Obs.
                          end) (vars s)).
 End Obs.
 
-Definition run_hist (H : pystr -> pystr) (t : term) : term :=
+Definition hist_run (H : pystr -> pystr) (t : term) : term :=
   match is_con "Hist" t with
   | Some [ctt; nv; TList ops] =>
     match ctable_of_term ctt, get_nat nv, map_opt op_of_term ops with
@@ -245,4 +245,4 @@ Definition run_hist (H : pystr -> pystr) (t : term) : term :=
   | _ => terr "Hist: bad input"
   end.
 
-Definition run_C03 (H : pystr -> pystr) (t : term) : term := run_hist H t.
+Definition run_C03 (H : pystr -> pystr) (t : term) : term := hist_run H t.
